@@ -9,7 +9,8 @@ pub const VOCAB: &[&str] = &[
     "package", "import", "interface", "parcelable", "enum", "oneway", "const", "in", "out", "inout", "void", "int", "byte", "boolean", "String",
     "CharSequence", "List", "Map", "\"s\"", "\"é\"", "\"\"", "true", "false", "@A", "@B", "@nullable", "(", ")", "{", "}", "[", "]", "<", ">", "=", ".",
     ",", ";", "-", "x", "Foo", "a.b.C", "p", "IBinder", "12", "1.5f", "-3", "99999999999", "for", "class", "do", "007", "4294967295", "4294967296",
-    "doubles", "inoutx", "_", "Listing", ".5", "+7", "1.", "12f",
+    "doubles", "inoutx", "_", "Listing", ".5", "+7", "1.", "12f", "Interface", "ENUM", "Parcelable", "Import", "OneWay", "Package", "Const", "TRUE", "FALSE",
+    "IN", "Void", "getInterfaceVersion",
 ];
 
 /// Pieces that are not tokens of the grammar: comments, doc comments, whitespace, broken lexemes.
